@@ -108,4 +108,22 @@ theorem sortByName_of_perm {α : Type} (key : α → String) (m : α → J) (xs 
   · exact map_sorted_of_keys key m ys hk hs
   · exact (sortByName_perm _).trans (hp.map m)
 
+theorem type?_name {S : Schema} {n : String} {td : TypeDef} (h : S.type? n = some td) : td.name = n := by
+  have := List.find?_some h
+  simpa using this
+
+
+theorem type?_of_mem {S : Schema} (hs : (S.types.map (·.name)).Pairwise (· < ·)) {td : TypeDef} (hm : td ∈ S.types) :
+    S.type? td.name = some td := by
+  unfold Schema.type?
+  cases hf : S.types.find? (fun t => t.name == td.name) with
+  | none =>
+    have := List.find?_eq_none.mp hf td hm
+    simp at this
+  | some td' =>
+    have hm' : td' ∈ S.types := List.mem_of_find?_eq_some hf
+    have hn : td'.name = td.name := by simpa using List.find?_some hf
+    rw [eq_of_key_eq (·.name) S.types hs td' hm' td hm hn]
+
+
 end PebblesVerif
